@@ -336,10 +336,12 @@ PROCESS_GLOBAL_OBJECTS = ("os.environ", "sys.path", "sys.modules", "sys.argv", "
 
 def process_global_mutations(tree):
     names = {}
+    imported_modules = {}       # local name -> module it denotes (only `import x` / `import x as y`: names that ARE modules)
     for n in ast.walk(tree):
         if isinstance(n, ast.Import):
             for a in n.names:
                 names[(a.asname or a.name).split(".")[0]] = a.name if a.asname else a.name.split(".")[0]
+                imported_modules[(a.asname or a.name).split(".")[0]] = a.name if a.asname else a.name.split(".")[0]
         elif isinstance(n, ast.ImportFrom) and n.module:
             for a in n.names:
                 names[a.asname or a.name] = "%s.%s" % (n.module, a.name)
@@ -357,6 +359,8 @@ def process_global_mutations(tree):
             q = qual(n.func)
             if q in PROCESS_GLOBAL_CALLS:
                 bad.append("line %d: %s(...)" % (n.lineno, q))
+            elif q in ("setattr", "builtins.setattr", "delattr") and n.args and isinstance(n.args[0], ast.Name) and n.args[0].id in imported_modules:
+                bad.append("line %d: %s on the imported module %s" % (n.lineno, q, imported_modules[n.args[0].id]))
             elif any(q.startswith(o) and q[len(o):].lstrip(".").split("(")[0] in ("append", "insert", "extend", "remove", "pop", "clear", "update", "setdefault", "__setitem__", "write")
                      for o in PROCESS_GLOBAL_OBJECTS if not o.startswith("sys.std")):
                 bad.append("line %d: %s(...)" % (n.lineno, q))
@@ -368,6 +372,12 @@ def process_global_mutations(tree):
                 q = qual(t)
                 if any(q.startswith(o) for o in PROCESS_GLOBAL_OBJECTS) or q.startswith("decimal.getcontext()."):
                     bad.append("line %d: store to %s" % (n.lineno, q))
+                elif isinstance(t, (ast.Attribute, ast.Subscript)):
+                    r = t
+                    while isinstance(r, (ast.Attribute, ast.Subscript)):
+                        r = r.value
+                    if isinstance(r, ast.Name) and r.id in imported_modules:
+                        bad.append("line %d: store into the imported module %s (`%s`): every user of that module in the process sees it" % (n.lineno, imported_modules[r.id], ast.unparse(t)))
     return bad
 
 
